@@ -25,11 +25,85 @@ const (
 	reqHeader = "X-Req"
 )
 
-// 36 characters, as the default KeyHeaderValidate demands.
+// Idempotency keys are opaque strings: two different strings are two keys, however close.
+// keyPool: 36 characters, as the default KeyHeaderValidate demands; A, B, C differ in the last
+// character only.
 var keyPool = []string{
-	"00000000-0000-4000-8000-00000000000a",
-	"00000000-0000-4000-8000-00000000000b",
-	"00000000-0000-4000-8000-00000000000c",
+	"abcdef00-0000-4000-8000-00c0ffee000a",
+	"abcdef00-0000-4000-8000-00c0ffee000b",
+	"abcdef00-0000-4000-8000-00c0ffee000c",
+}
+
+// nearKeys are other keys that are as close to A as a different string can be (still 36
+// characters). anyKeys need a KeyHeaderValidate that accepts every non-empty key (scenario.AnyKey).
+var nearKeys = []string{
+	"ABCDEF00-0000-4000-8000-00C0FFEE000A", // A in upper case
+	"abcdef00-0000-4000-8000-00c0ffee000A", // one letter of A in the other case
+	"bbcdef00-0000-4000-8000-00c0ffee000a", // first character differs
+	"abcdef00-0000-4000-8000-01c0ffee000a", // a middle character differs
+	"abcdef00-0000-4000-8000-00c0ffee000b", // last character differs (= B)
+	"Abcdef00-0000-4000-8000-00c0ffee000a", // first letter in the other case
+}
+
+var anyKeys = []string{
+	"abcdef00-0000-4000-8000-00c0ffee000",   // proper prefix of A
+	"abcdef00-0000-4000-8000-00c0ffee000a0", // extension of A
+	"abcdef00-0000-4000-8000-00c0ffee000aa", // extension by its own last character
+	"k", "K", "k1", "tok_AbC", "tok_aBc",
+}
+
+// keyRelation names how two different key strings are related (signature input class).
+func keyRelation(a, b string) string {
+	switch {
+	case a == b:
+		return "same"
+	case strings.EqualFold(a, b):
+		return "case-variant"
+	case strings.HasPrefix(a, b) || strings.HasPrefix(b, a):
+		return "prefix"
+	case strings.TrimSpace(a) == strings.TrimSpace(b):
+		return "surrounding-whitespace"
+	case len(a) == len(b):
+		diff, at := 0, 0
+		for i := range a {
+			if a[i] != b[i] {
+				diff++
+				at = i
+			}
+		}
+		if diff == 1 {
+			switch at {
+			case 0:
+				return "one-char-first"
+			case len(a) - 1:
+				return "one-char-last"
+			}
+			return "one-char-middle"
+		}
+	}
+	return "unrelated"
+}
+
+func keyLabel(k string) string {
+	for j, p := range keyPool {
+		if k == p {
+			return string(rune('A' + j))
+		}
+	}
+	for j, p := range nearKeys {
+		if k == p {
+			return "near" + strconv.Itoa(j)
+		}
+	}
+	for j, p := range anyKeys {
+		if k == p {
+			return "any" + strconv.Itoa(j)
+		}
+	}
+	if k == "" {
+		return "-"
+	}
+	return "?"
 }
 
 type reqSpec struct {
@@ -70,6 +144,7 @@ type scenario struct {
 	Split     bool          `json:"split,omitempty"`      // fiber.Config.EnableSplittingOnParsers
 	Lifetime  time.Duration `json:"lifetime,omitempty"`
 	MemStore  bool          `json:"mem_store,omitempty"` // nil Storage: the default in-memory storage
+	AnyKey    bool          `json:"any_key,omitempty"`   // KeyHeaderValidate accepts every non-empty key
 }
 
 func (sc *scenario) workers() [][]int {
@@ -89,13 +164,7 @@ func (sc *scenario) desc() string {
 		if i > 0 {
 			sb.WriteByte(' ')
 		}
-		k := "-"
-		for j, p := range keyPool {
-			if r.Key == p {
-				k = string(rune('A' + j))
-			}
-		}
-		sb.WriteString(r.Method + ":" + k)
+		sb.WriteString(r.Method + ":" + keyLabel(r.Key))
 	}
 	fmt.Fprintf(&sb, " keep=%v base=%d", sc.Keep != nil, sc.ShapeBase)
 	if sc.FailFirst {
@@ -109,6 +178,9 @@ func (sc *scenario) desc() string {
 	}
 	if sc.MemStore {
 		sb.WriteString(" memstore")
+	}
+	if sc.AnyKey {
+		sb.WriteString(" anykey")
 	}
 	if sc.Workers != nil {
 		fmt.Fprintf(&sb, " workers=%v", sc.Workers)
@@ -317,6 +389,9 @@ func newRun(sc *scenario, plan faultPlan, s *sched.Sched) *run {
 	cfg := idempotency.Config{Lifetime: sc.Lifetime}
 	if sc.Keep != nil {
 		cfg.KeepResponseHeaders = sc.Keep
+	}
+	if sc.AnyKey {
+		cfg.KeyHeaderValidate = func(string) error { return nil }
 	}
 	if !sc.MemStore {
 		r.vs = vstore.New()
